@@ -1987,7 +1987,7 @@ theorem breadLoop_spec (dec : Bytes → Bool) (closed : Bool) (fuel : Nat) (c : 
 
 theorem bwriteLoop_spec (sched : List Nat) (c : Chan) (acc : Bytes) (h : ChanWF c) :
     ChanStep c (Sozu.Channel.bwriteLoop sched c acc).1 ∧ (bwriteLoop sched c acc).1.front = c.front ∧
-    (bwriteLoop sched c acc).2 ++ (bwriteLoop sched c acc).1.back.data = acc ++ c.back.data := by
+    (bwriteLoop sched c acc).2.1 ++ (bwriteLoop sched c acc).1.back.data = acc ++ c.back.data := by
   fun_induction bwriteLoop sched c acc
   · exact ⟨ChanStep.refl _, rfl, rfl⟩
   · exact ⟨ChanStep.refl _, rfl, rfl⟩
@@ -1998,9 +1998,12 @@ theorem bwriteLoop_spec (sched : List Nat) (c : Chan) (acc : Bytes) (h : ChanWF 
     rw [i3]
     simp [consume_data _ _ h.2, List.append_assoc]
 
+/-- messages the writer accepted: a blocking write that reports a send timeout
+    (`Err(Write)`) has nevertheless put the whole frame into the back buffer -/
 def xwrittenOf : XOp → Out → List Bytes
   | .base op, o => writtenOf op o
   | .bwrite p _, .unit => [p]
+  | .bwrite p _, .err .write => [p]
   | _, _ => []
 
 def xwritten : List XOp → List Out → List Bytes
@@ -2104,16 +2107,18 @@ theorem xstep_fifo (dec : Bytes → Bool) (s : Sys) (op : XOp) (pend : List Byte
     rw [hr] at hs hd hwf'
     simp only at hs hd hwf'
     rcases r1 with e | u
-    · rcases hd with ⟨h1, _⟩ | ⟨_, h2⟩
+    · rcases hd with ⟨h1, _⟩ | ⟨h1, h2⟩
       · cases h1
-      · refine ⟨pend, ⟨hwf', ?_, h.good⟩, by simp [xwrittenOf, deliveredOf]⟩
+      · cases h1
+        refine ⟨pend, ⟨hwf', ?_, h.good⟩, by simp [xwrittenOf, deliveredOf]⟩
         simp only [Sys.stream, h2]; exact hst
     · cases u
       simp only at hwf' ⊢
       rcases hd with ⟨_, h2⟩ | ⟨h1, _⟩
       · obtain ⟨_, _, h3⟩ := bwriteLoop_spec sched w1 [] (hs.wf h.wf.1)
         simp only [List.nil_append] at h3
-        refine ⟨pend ++ [p], ⟨hwf', ?_, ?_⟩, by simp [xwrittenOf, deliveredOf]⟩
+        refine ⟨pend ++ [p], ⟨hwf', ?_, ?_⟩, by
+          cases hb : (bwriteLoop sched w1 []).2.2 <;> simp [xwrittenOf, deliveredOf]⟩
         · simp only [Sys.stream, flat_append, flat_cons, flat_nil, List.append_nil]
           rw [← hst, List.append_assoc s.wire, h3, h2]; simp [List.append_assoc]
         · intro q hq
@@ -2207,5 +2212,18 @@ theorem bstep_spec (b : Buffer) (op : BOp) (h : b.WF) :
       by_cases hn : n ≤ b.fin - b.pos
       · rw [Nat.min_eq_right hn]
       · rw [Nat.min_eq_left (by omega), List.drop_eq_nil_of_le (by omega), List.drop_eq_nil_of_le (by omega)]
+
+/-- a blocking flush reports completion only when the back buffer is empty -/
+theorem bwriteLoop_ok_empty (sched : List Nat) (c : Chan) (acc : Bytes) (h : ChanWF c)
+    (hok : (bwriteLoop sched c acc).2.2 = true) : (bwriteLoop sched c acc).1.back.data = [] := by
+  fun_induction bwriteLoop sched c acc
+  · next c acc h0 =>
+    obtain ⟨a, b, d⟩ := h.2
+    simp only [Buffer.availData] at h0
+    show c.back.data = []
+    exact List.eq_nil_of_length_eq_zero (by omega)
+  · simp at hok
+  · simp at hok
+  · next ih => exact ih ⟨h.1, wf_consume _ _ h.2⟩ hok
 
 end Sozu.Channel
